@@ -198,3 +198,96 @@ def U1_defined_attributes(rep, flow, modules):
                             rep.ok("U1", 1, nontrivial=(c.fq, n.attr))
                         else:
                             rep.finding("U1", f"{c.fq}:{n.attr}", f"{pyfacts.where(meth, n)}: `self.{n.attr}` is read but no method of {c.name} (nor the class body) ever defines `{n.attr}` (defined: {sorted(defined - set(c.methods))[:12]}): the call dies with AttributeError")
+
+
+def A10_instance_memos(rep, flow, classes=("stabilizer.Stabilizer", "graph.Graph")):
+    """objects of these classes are ARGUMENTS of the public API and their defining fields are public (the repository's own
+    test helpers overwrite `R`, `S`, the adjacency matrix in place).  A method that stores a derived value on the instance
+    and serves it again later (`if self._m is not None: return self._m ... self._m = f(self.R, ...)`) without any method
+    ever resetting it makes the answer for one and the same argument state depend on what was asked before."""
+    rep.rule("A10", "no method of an argument class (Stabilizer, Graph) serves a value remembered on the instance that was derived from the object's public fields and is never reset", floor=0)
+    prog = flow.prog
+    for cfq in classes:
+        try:
+            c = prog.cls(cfq)
+        except AnalysisError:
+            continue
+        public = set()
+        for meth in c.methods.values():
+            for n in ast.walk(meth.node):
+                if isinstance(n, ast.Attribute) and isinstance(n.ctx, ast.Store) and isinstance(n.value, ast.Name) and n.value.id == "self" and not n.attr.startswith("_"):
+                    public.add(n.attr)
+        for meth in c.methods.values():
+            if meth.name == "__init__":
+                continue
+            stores = {}
+            for n in ast.walk(meth.node):
+                if isinstance(n, ast.Assign) and len(n.targets) == 1 and isinstance(n.targets[0], ast.Attribute) and isinstance(n.targets[0].value, ast.Name) and n.targets[0].value.id == "self":
+                    stores[n.targets[0].attr] = n
+            for name, st in stores.items():
+                # served early: a return of self.<name> (or of a local read from it) guarded by a test on self.<name>
+                served = False
+                for iff in [x for x in ast.walk(meth.node) if isinstance(x, ast.If)]:
+                    mentions = any((isinstance(a, ast.Attribute) and a.attr == name) or (isinstance(a, ast.Constant) and a.value == name) for a in ast.walk(iff.test))
+                    returns = any(isinstance(r, ast.Return) and r.value is not None and any(isinstance(a, ast.Attribute) and a.attr == name for a in ast.walk(r.value)) for r in ast.walk(iff))
+                    if mentions and returns and iff.lineno < st.lineno:
+                        served = True
+                if not served:
+                    continue
+                # derived from public fields: the stored value, or the locals it is made of, read a public attribute somewhere in the method
+                # (the method itself and the methods of the class it calls through self, transitively)
+                clo, todo = [], [meth]
+                while todo:
+                    m0 = todo.pop()
+                    if m0 in clo:
+                        continue
+                    clo.append(m0)
+                    for a in ast.walk(m0.node):
+                        if isinstance(a, ast.Call) and isinstance(a.func, ast.Attribute) and isinstance(a.func.value, ast.Name) and a.func.value.id == "self" and a.func.attr in c.methods:
+                            todo.append(c.methods[a.func.attr])
+                reads_public = sorted({a.attr for m0 in clo for a in ast.walk(m0.node) if isinstance(a, ast.Attribute) and isinstance(a.ctx, ast.Load) and isinstance(a.value, ast.Name) and a.value.id == "self" and a.attr in public})
+                resets = [m2.name for m2 in c.methods.values() if m2 is not meth and any(
+                    (isinstance(x, ast.Assign) and any(isinstance(t, ast.Attribute) and t.attr == name for t in x.targets)) or
+                    (isinstance(x, ast.Delete) and any(isinstance(t, ast.Attribute) and t.attr == name for t in x.targets)) for x in ast.walk(m2.node)) and m2.name != "__init__"]
+                if not reads_public:
+                    continue
+                if resets:
+                    raise AnalysisError(f"{pyfacts.where(meth, st)}: `self.{name}` is a remembered value derived from {reads_public} and reset in {resets}: whether every change of those fields resets it is not decidable here")
+                rep.finding("A10", f"{cfq}.{meth.name}:{name}", f"{pyfacts.where(meth, st)}: {c.name}.{meth.name} remembers its result in `self.{name}` and serves it on every later call; the value is derived from the public field(s) {reads_public}, which callers (and the repository's own helpers) overwrite, and nothing ever resets it: the same object state gives different answers depending on what was asked before")
+            rep.ok("A10", 1, nontrivial=(cfq, meth.name))
+
+
+def W15_flag_forwarding(rep, flow, module="tomography", flag="full_hilbert_space"):
+    """a mode flag that a method takes and that the methods it calls take under the same name is handed on: a call that
+    leaves it out runs the callee in its default mode whatever the caller asked for"""
+    rep.rule("W15", f"every method of the tomography module that takes `{flag}` hands it on to each callee that takes `{flag}` too", floor=2)
+    prog = flow.prog
+    m = prog.modules.get(module)
+    if m is None:
+        raise AnalysisError(f"module {module} vanished")
+    takers = {}
+    for f in m.all_funcs:
+        if flag in f.params:
+            takers.setdefault(f.name, []).append(f)
+    for f in m.all_funcs:
+        if flag not in f.params:
+            continue
+        for c in [x for x in ast.walk(f.node) if isinstance(x, ast.Call)]:
+            nm = c.func.attr if isinstance(c.func, ast.Attribute) else (c.func.id if isinstance(c.func, ast.Name) else None)
+            if nm not in takers:
+                continue
+            cal = takers[nm][0]
+            pos = [p for p in cal.params if p != "self"].index(flag)
+            given = next((k.value for k in c.keywords if k.arg == flag), None)
+            if given is None and len(c.args) > pos and not any(isinstance(a, ast.Starred) for a in c.args):
+                given = c.args[pos]
+            if given is None and (any(k.arg is None for k in c.keywords) or any(isinstance(a, ast.Starred) for a in c.args)):
+                raise AnalysisError(f"{pyfacts.where(f, c)}: `{flag}` may travel in a star-argument [{pyfacts.norm_stmt(c)[:80]}]")
+            if given is None:
+                rep.finding("W15", f"{f.fq}:{nm}", f"{pyfacts.where(f, c)}: {f.qualname} takes `{flag}` but calls `{nm}` without it [{pyfacts.norm_stmt(c)[:100]}]: the callee runs with its default whatever the caller asked for")
+            elif isinstance(given, ast.Name) and given.id == flag:
+                rep.ok("W15", 1, nontrivial=(f.fq, nm, c.lineno), sample=f"{f.qualname} -> {nm}({flag}={flag})")
+            elif isinstance(given, ast.Constant):
+                rep.finding("W15", f"{f.fq}:{nm}", f"{pyfacts.where(f, c)}: {f.qualname} takes `{flag}` but calls `{nm}` with the constant {given.value!r} [{pyfacts.norm_stmt(c)[:100]}]")
+            else:
+                raise AnalysisError(f"{pyfacts.where(f, c)}: `{flag}` is handed on as `{ast.unparse(given)[:60]}`: not decidable here")
